@@ -870,6 +870,9 @@ Definition valid_h5 (f : h5file) : Prop :=
        /\ ids_ok oi /\ ids_ok si
        /\ matrix_ok f 0 no ns /\ matrix_ok f 1 ns no.
 
+Lemma ROk_inj {A} (a b : A) : ROk a = ROk b -> a = b.
+Proof. intros H; inversion H; reflexivity. Qed.
+
 Lemma app_nil_inv {A} (a b : list A) : a ++ b = [] -> a = [] /\ b = [].
 Proof. destruct a; simpl; [auto|discriminate]. Qed.
 
@@ -909,7 +912,7 @@ Proof.
   unfold shape_part in Hs.
   destruct (hfind (h_root f) (P2 "observation" "ids")) as [oi|] eqn:Eo; [|discriminate].
   destruct (hfind (h_root f) (P2 "sample" "ids")) as [si|] eqn:Es; [|discriminate].
-  inv_bind Hs as x0 Hx0. inv_bind Hs as x1 Hx1. inversion Hs as [Hl]. clear Hs.
+  inv_bind Hs as x0 Hx0. inv_bind Hs as x1 Hx1. apply ROk_inj in Hs. rename Hs into Hl.
   apply app_nil_inv in Hl. destruct Hl as [M3 Hl]. apply app_nil_inv in Hl. destruct Hl as [M4 Hl].
   apply app_nil_inv in Hl. destruct Hl as [-> ->].
   destruct (negb (SCALE * x =? SCALE * Z.of_nat (node_len oi))) eqn:N3; [discriminate|].
@@ -928,10 +931,178 @@ Proof.
     destruct (A _ _ Hin) as [a [Ga _]]. cbn [fst]. congruence. }
   split.
   { apply Forall_app. split; [exact Lg|]. apply Forall_app. split; [exact Md|exact Ld]. }
-  exists x, y, oi, si. split; [reflexivity|]. split; [reflexivity|]. split; [reflexivity|].
+  exists x, y, oi, si. split; [exact Gsh|]. split; [exact Eo|]. split; [exact Es|].
   split; [lia|]. split; [lia|].
   split; [exact (hv_ids_sound f 0 oi Hi0 Eo)|]. split; [exact (hv_ids_sound f 1 si Hi1 Es)|].
   split.
   - exact (hv_matrix_sound f 0 x y d0 n0 p0 Ed0 En0 Ep0 Hx0).
   - exact (hv_matrix_sound f 1 y x d1 n1 p1 Ed1 En1 Ep1 Hx1).
 Qed.
+
+(* ------------------------------------------------------------------ rejections, read off soundness *)
+Lemma not_valid_false j : ~ valid_doc j -> validate_json j = false.
+Proof.
+  intros H. destruct (validate_json j) eqn:E; [|reflexivity]. exfalso. apply H. apply valid_sound_json. exact E.
+Qed.
+
+Ltac open_valid H :=
+  destruct H as (kv0 & va & vb & vrrecs & vcrecs & ventries & vmt & vmet & vdt & vE & vKeys & vHs
+    & vGr & vLa & vGc & vLb & vFr & vFc & vDr & vDc & vGd & vGmt & vGme & vHin & vHdata);
+  inversion vE; subst kv0; clear vE.
+
+Corollary missing_key_rejected kv k :
+  In k (map fst REQUIRED) -> jget kv k = None -> validate_json (JObj kv) = false.
+Proof.
+  intros Hk Hn. apply not_valid_false. intros V. open_valid V.
+  rewrite Forall_forall in vKeys. exact (vKeys k Hk Hn).
+Qed.
+
+Corollary shape_mismatch_rejected kv a b recs :
+  jget kv (K "shape") = Some (JArr [JInt a; JInt b]) ->
+  (jget kv (K "rows") = Some (JArr recs) /\ Z.of_nat (length recs) <> a
+   \/ jget kv (K "columns") = Some (JArr recs) /\ Z.of_nat (length recs) <> b) ->
+  validate_json (JObj kv) = false.
+Proof.
+  intros Hs' H. apply not_valid_false. intros V. open_valid V.
+  rewrite vHs in Hs'. inversion Hs'; subst.
+  destruct H as [[G N]|[G N]]; [rewrite vGr in G|rewrite vGc in G]; inversion G; subst; contradiction.
+Qed.
+
+Corollary bad_coordinate_rejected kv a b entries e :
+  jget kv (K "shape") = Some (JArr [JInt a; JInt b]) ->
+  jget kv (K "matrix_type") = Some (JStr (K "sparse")) -> jget kv (K "data") = Some (JArr entries) ->
+  In e entries ->
+  (forall x y v, e = JArr [JInt x; JInt y; v] -> ~ (0 <= x < a /\ 0 <= y < b)) ->
+  validate_json (JObj kv) = false.
+Proof.
+  intros Hs' Hm Hd He Bad. apply not_valid_false. intros V. open_valid V.
+  rewrite vHs in Hs'. inversion Hs'; subst. rewrite vGd in Hd. inversion Hd; subst.
+  rewrite vGmt in Hm. inversion Hm; subst.
+  destruct vHdata as [[_ Fa]|[X _]]; [|vm_compute in X; discriminate X].
+  rewrite Forall_forall in Fa. destruct (Fa e He) as (x & y & v & -> & Hx & Hy & _).
+  exact (Bad x y v eq_refl (conj Hx Hy)).
+Qed.
+
+Corollary bad_element_rejected kv entries x y v met dt :
+  jget kv (K "matrix_type") = Some (JStr (K "sparse")) -> jget kv (K "data") = Some (JArr entries) ->
+  jget kv (K "matrix_element_type") = Some (JStr met) -> In (met, dt) ELEMENT_TYPES ->
+  In (JArr [x; y; v]) entries -> py_isinstance v dt = false ->
+  validate_json (JObj kv) = false.
+Proof.
+  intros Hm Hd Hme Hin' He Bad. apply not_valid_false. intros V. open_valid V.
+  rewrite vGd in Hd. inversion Hd; subst. rewrite vGmt in Hm. inversion Hm; subst.
+  rewrite vGme in Hme. inversion Hme; subst.
+  assert (vdt = dt).
+  { clear - vHin Hin'. unfold ELEMENT_TYPES in *. cbn [In] in *.
+    destruct vHin as [H|[H|[H|[H|[]]]]]; destruct Hin' as [H'|[H'|[H'|[H'|[]]]]];
+      inversion H; subst; first [congruence | (vm_compute in H'; discriminate H')]. }
+  subst.
+  destruct vHdata as [[_ Fa]|[X _]]; [|vm_compute in X; discriminate X].
+  rewrite Forall_forall in Fa. destruct (Fa _ He) as (x' & y' & v' & E & _ & _ & Iv). inversion E; subst. congruence.
+Qed.
+
+Corollary bad_record_rejected kv key recs r :
+  (key = K "rows" \/ key = K "columns") -> jget kv key = Some (JArr recs) -> In r recs ->
+  ~ good_rec r -> validate_json (JObj kv) = false.
+Proof.
+  intros Hk G Hr Bad. apply not_valid_false. intros V. open_valid V.
+  destruct Hk as [-> | ->]; [rewrite vGr in G|rewrite vGc in G]; inversion G; subst;
+    [rewrite Forall_forall in vFr; exact (Bad (vFr r Hr))|rewrite Forall_forall in vFc; exact (Bad (vFc r Hr))].
+Qed.
+
+(* an empty ID, a duplicated text ID, metadata that is neither an object nor null *)
+Lemma blank_id_not_good kv : jget kv (K "id") = Some (JStr []) -> ~ good_rec (JObj kv).
+Proof.
+  intros G (kv' & idv & md & E & Gi & T & _). inversion E; subst. rewrite G in Gi. inversion Gi; subst. discriminate.
+Qed.
+Lemma bad_md_not_good kv md :
+  jget kv (K "metadata") = Some md -> md <> JNull -> is_obj md = false -> ~ good_rec (JObj kv).
+Proof.
+  intros G N O (kv' & idv & md' & E & _ & _ & _ & Gm & Hm). inversion E; subst. rewrite G in Gm. inversion Gm; subst.
+  destruct Hm as [->|Hm]; [contradiction|congruence].
+Qed.
+
+Corollary duplicate_id_rejected kv key recs i j s :
+  (key = K "rows" \/ key = K "columns") -> jget kv key = Some (JArr recs) ->
+  (i < j)%nat -> nth_error (map rec_id recs) i = Some (JStr s) -> nth_error (map rec_id recs) j = Some (JStr s) ->
+  validate_json (JObj kv) = false.
+Proof.
+  intros Hk G Hij Hi Hj. apply not_valid_false. intros V. open_valid V.
+  assert (D : py_distinct (map rec_id recs)).
+  { destruct Hk as [-> | ->]; [rewrite vGr in G|rewrite vGc in G]; inversion G; subst; assumption. }
+  clear - D Hij Hi Hj. revert i j Hij Hi Hj. induction D as [|x l Fx D IH]; intros i j Hij Hi Hj.
+  - destruct i; discriminate.
+  - destruct j as [|j]; [lia|]. destruct i as [|i].
+    + cbn [nth_error] in Hi, Hj. inversion Hi; subst. apply nth_error_In in Hj.
+      rewrite Forall_forall in Fx. specialize (Fx _ Hj). unfold py_eq in Fx. cbn [numval] in Fx.
+      rewrite str_eqb_refl in Fx. discriminate.
+    + cbn [nth_error] in Hi, Hj. apply (IH i j); [lia|assumption|assumption].
+Qed.
+
+(* ------------------------------------------------------------------ witnesses (non-vacuity, limits) *)
+Lemma witness_writable : writable witness_table.
+Proof.
+  destruct witness_table_ok as (W & B & _).
+  split; [exact W|]. split; [exact B|].
+  split; [exists (K "OTU table"); split; [reflexivity|]; split; [discriminate|vm_compute; reflexivity]|].
+  split; [repeat constructor; discriminate|]. split; [repeat constructor; discriminate|].
+  split; [eexists; split; [reflexivity|discriminate]|].
+  eexists; split; [reflexivity|vm_compute; reflexivity].
+Qed.
+
+Lemma witness_valid : validate_json (to_json_tree witness_table (K "None")) = true.
+Proof. apply writer_valid_json. exact witness_writable. Qed.
+
+(* IDs need not be text: a number is accepted as an ID (np.asarray turns it into text on load) *)
+Definition doc_with (tweak : list (str * json) -> list (str * json)) : json :=
+  JObj (tweak (to_json_fields witness_table (K "None"))).
+Fixpoint jset (kv : list (str * json)) (k : str) (v : json) : list (str * json) :=
+  match kv with
+  | [] => [(k, v)]
+  | (k', v') :: t => if str_eqb k k' then (k, v) :: t else (k', v') :: jset t k v
+  end.
+
+Lemma nontext_id_accepted :
+  exists j kv recs r, validate_json j = true /\ j = JObj kv /\ jget kv (K "rows") = Some (JArr recs)
+                      /\ In r recs /\ is_str (rec_id r) = false.
+Proof.
+  eexists (doc_with (fun kv => jset kv (K "rows")
+            (JArr [jrecord (K "a") JNull; JObj [(K "id", JInt 5); (K "metadata", JNull)]]))).
+  eexists. eexists. exists (JObj [(K "id", JInt 5); (K "metadata", JNull)]).
+  split; [vm_compute; reflexivity|]. split; [reflexivity|]. split; [vm_compute; reflexivity|].
+  split; [right; left; reflexivity|reflexivity].
+Qed.
+
+(* the same coordinate may be declared twice; the loader adds the two values up *)
+Lemma duplicate_coordinates_summed :
+  exists j c, validate_json j = true /\ from_json j = ROk c /\ get (j_mat c) 0 1 = 5 + 64.
+Proof.
+  eexists (doc_with (fun kv => jset kv (K "data")
+            (JArr [JArr [JInt 0; JInt 1; JFlt 5]; JArr [JInt 0; JInt 1; JFlt 64]]))).
+  eexists. split; [vm_compute; reflexivity|]. split; [vm_compute; reflexivity|]. vm_compute. reflexivity.
+Qed.
+
+(* the element types "str" / "unicode" are accepted by the validator; "str" is unknown to the loader *)
+Lemma str_element_type_does_not_load :
+  exists j, validate_json j = true /\ from_json j = RErr E_KEY.
+Proof.
+  exists (doc_with (fun kv => jset (jset kv (K "matrix_element_type") (JStr (K "str"))) (K "data") (JArr []))).
+  split; vm_compute; reflexivity.
+Qed.
+
+(* a small HDF5 file the validator accepts: 1 x 2 table with one non-zero value *)
+Definition witness_h5 : h5file :=
+  mkH5 [(K "id", AStr (K "No Table ID")); (K "type", AStr (K "OTU table"));
+        (K "format-url", AStr FORMAT_URL); (K "format-version", AInts [2; 1]);
+        (K "generated-by", AStr (K "g")); (K "creation-date", AStr (K "2020-01-02T03:04:05.000006"));
+        (K "shape", AInts [1; 2]); (K "nnz", AInt 1)]
+       [(K "observation", HGroup [(K "ids", HStrs [K "o1"]);
+                                  (K "matrix", HGroup [(K "data", HFlts [96]); (K "indices", HInts [1]);
+                                                       (K "indptr", HInts [0; 1])]);
+                                  (K "metadata", HGroup []); (K "group-metadata", HGroup [])]);
+        (K "sample", HGroup [(K "ids", HStrs [K "s1"; K "s2"]);
+                             (K "matrix", HGroup [(K "data", HFlts [96]); (K "indices", HInts [0]);
+                                                  (K "indptr", HInts [0; 0; 1])]);
+                             (K "metadata", HGroup []); (K "group-metadata", HGroup [])])].
+Lemma witness_h5_valid : validate_hdf5 witness_h5 = true.
+Proof. vm_compute. reflexivity. Qed.
